@@ -317,6 +317,7 @@ class Kit:
             fn = os.path.join(d, "traj.lammpstrj")
             n = len(names)
             perm = setup["file_order"]      # order in which atom ids appear in the file
+            ids = lmp_ids(setup)             # the atom ids themselves: increasing, not necessarily 1..N
             with open(fn, "w") as f:
                 for fr_ in frames:
                     f.write(f"ITEM: TIMESTEP\n0\nITEM: NUMBER OF ATOMS\n{n}\nITEM: BOX BOUNDS pp pp pp\n")
@@ -325,7 +326,7 @@ class Kit:
                     f.write("ITEM: ATOMS id type x y z vx vy vz\n")
                     for a in perm:
                         p, v = fr_["pos"][a - 1], fr_["vel"][a - 1]
-                        f.write(f"{a} {setup['types'][a - 1]} " + " ".join(repr(float(x)) for x in list(p) + list(v)) + "\n")
+                        f.write(f"{ids[a - 1]} {setup['types'][a - 1]} " + " ".join(repr(float(x)) for x in list(p) + list(v)) + "\n")
             return [(fn, i) for i in range(len(frames))], [fn]
         if k == "gromacs":
             cfgs, files = [], []
@@ -417,11 +418,23 @@ class Kit:
         if k in ("turtle", "cp2k"):
             return list(names)
         if k == "lammps":
-            return [f"{a}:{setup['types'][a - 1]}" for a in range(1, len(names) + 1)]
+            return [f"{lmp_ids(setup)[a - 1]}:{setup['types'][a - 1]}" for a in range(1, len(names) + 1)]
         if k == "gromacs":
             return [g96_label(i, nm) for i, nm in enumerate(names)]
         if k == "ase":
             return [f"{ASE_NUMBERS[nm]}:{float(m)!r}" for nm, m in zip(names, setup["masses"])]
+
+
+def lmp_ids(setup):
+    """LAMMPS atom ids of a set-up: legal ids need not be 1..N (atoms deleted, ids starting elsewhere); derived
+    from the file order so that the choice is a function of the generated set-up"""
+    n = len(setup["names"])
+    style = sum(setup.get("file_order") or [0]) % 3
+    if style == 0:
+        return list(range(1, n + 1))
+    if style == 1:
+        return [3 * a + 2 for a in range(n)]          # 2, 5, 8, ...
+    return list(range(1001, 1001 + n))
 
 
 def xyz_frame(names, pos, vel, box):
